@@ -57,7 +57,8 @@ func c07ExpectPath(esc, strip, prepend string) string {
 		}
 	}
 	if prepend != "" {
-		p = prepend + p
+		// the prepend value is plain text of the route; on the wire it is escaped like any path
+		p = (&url.URL{Path: prepend}).EscapedPath() + p
 		if !strings.HasPrefix(p, "/") {
 			p = "/" + p
 		}
@@ -81,7 +82,7 @@ func c07Sig(kind string, c c07Case) string {
 
 func TestVerifC07Request(t *testing.T) {
 	L := ev.Begin("C07", "c07-request", "exploration",
-		"full product method x path (incl. %2F, %20, //, prefix-sharing) x query x header set (custom, duplicate, lower-case, auth/cookie) x body (none, 1B, 70kB, chunked) x strip x prepend x host option x target query x client Host spelling (plain, :80, :8080, mixed case), each parsed with net/http's request parser and served by the real HTTPProxy.ServeHTTP + ReverseProxy to a real upstream that records method, request-target, Host, headers and body; oracle = rewrite rules of the statement applied to the escaped path. non-trivial = case with a rewrite option or encoded path")
+		"full product method x path (incl. %2F, %20, //, prefix-sharing) x query x header set (custom, duplicate, lower-case, auth/cookie) x body (none, 1B, 70kB, chunked) x strip x prepend (incl. one that needs escaping itself) x host option x target query x client Host spelling (plain, :80, :8080, mixed case), each parsed with net/http's request parser and served by the real HTTPProxy.ServeHTTP + ReverseProxy to a real upstream that records method, request-target, Host, headers and body; oracle = rewrite rules of the statement applied to the escaped path. non-trivial = case with a rewrite option or encoded path")
 	methods := []string{"GET", "POST", "HEAD"}
 	if ev.Thorough() {
 		methods = []string{"GET", "HEAD", "POST", "PUT", "DELETE", "OPTIONS"}
@@ -113,6 +114,12 @@ func TestVerifC07Request(t *testing.T) {
 					}
 				}
 			}
+		}
+	}
+	// a prepend value that itself needs escaping on the wire
+	for _, p := range paths {
+		for _, st := range []string{"", "/foo", "/foo/"} {
+			cases = append(cases, c07Case{"GET", p, "a=1", 0, 0, st, "/caf\u00e9", "", ""})
 		}
 	}
 	L.Set("cases", len(cases))
@@ -194,7 +201,12 @@ func TestVerifC07Request(t *testing.T) {
 		// present (/foo%2Fbar with strip=/foo/): the statement leaves that open
 		open := false
 		if dec, err := url.PathUnescape(c.path); err == nil {
-			if back, err2 := url.PathUnescape(wantPath); err2 != nil || back != c07ExpectPath(dec, c.strip, c.prepend) {
+			decWant, _ := url.PathUnescape(c07ExpectPath(dec, c.strip, c.prepend)) // only the prepend value can be escaped in it
+			if dec == c.path {
+				decWant = c07ExpectPath(dec, c.strip, c.prepend)
+				decWant = strings.Replace(decWant, (&url.URL{Path: c.prepend}).EscapedPath(), c.prepend, 1)
+			}
+			if back, err2 := url.PathUnescape(wantPath); err2 != nil || back != decWant {
 				open = true
 			}
 		}
